@@ -188,6 +188,14 @@ func runD14(t *testing.T, c d14Cfg) {
 	})
 	tcKey := parentKey(mk("tc", true, false))
 	expect("target-add(selected)", []string{tcKey}, func() { s.MustCreate(ti.GVR(), mk("tc", true, false)) })
+	// an object that fails the selectors but carries the controller's finalizer is queued whether
+	// or not a finalize hook is configured (without one, the sync is what removes the leftover);
+	// these events are only delivered, never processed, so the finalizer stays for all three
+	tl := mk("tl", false, true)
+	tlKey := parentKey(tl)
+	expect("target-add(not selected,carries finalizer)", []string{tlKey}, func() { s.MustCreate(ti.GVR(), tl) })
+	expect("target-update-spec(not selected,carries finalizer)", []string{tlKey}, touch(ti, ns, "tl-"+uid))
+	expect("target-delete(not selected,carries finalizer)", []string{tlKey}, func() { s.ExtDelete(ti.GVR(), ns, "tl-"+uid, "") })
 	expect("target-add(not selected)", none, func() { s.MustCreate(ti.GVR(), mk("tz", false, false)) })
 	expect("target-delete(not selected)", none, func() { s.ExtDelete(ti.GVR(), ns, "tz-"+uid, "") })
 	expect("target-relabel-to-select", []string{parentKey(tn)}, func() {
